@@ -3,9 +3,12 @@
    source tables in C18. -/
 import Driver.Util
 import RelicVerif.Model.Fp
+import RelicVerif.Model.FpAlg
+import RelicVerif.Model.FpAlgCrt
 
 namespace Driver.C02
 open Driver Relic.Model
+open Relic.Model.FpAlg (Ctx)
 
 structure Env where
   ctx : FpCtx
@@ -13,6 +16,8 @@ structure Env where
   conv : Nat
   qnr : Int
   cnr : Int
+  alg : Ctx := { p := 0, m := 0, fb := 0, rinv := 0 }   -- context of the algorithm models (Model/FpAlg)
+  hasAlg : Bool := false                                  -- the fp_param line carried bits / 2ad / srt / width
 
 def powMod (a e m : Nat) : Nat :=
   let rec go (fuel : Nat) (a e acc : Nat) : Nat :=
@@ -46,7 +51,13 @@ def parseEnv (w : Nat) (got : String) : Option Env := do
   let conv ← parseHexNat (← kv.lookup "conv")
   let qnr ← (← kv.lookup "qnr").toInt?
   let cnr ← (← kv.lookup "cnr").toInt?
-  some { ctx := { w := w, n := n, p := toDigitsN w p n, u := u }, p := p, conv := conv, qnr := qnr, cnr := cnr }
+  let e0 : Env := { ctx := { w := w, n := n, p := toDigitsN w p n, u := u }, p := p, conv := conv, qnr := qnr, cnr := cnr }
+  -- optional keys (only the C02 oracle prints them): RLC_FP_BITS, 2-adicity of p − 1, root of unity of fp_srt, RLC_WIDTH
+  let optNat := fun (k : String) => (kv.lookup k).bind String.toNat?
+  let alg : Ctx := { p := p, m := w * n, fb := (optNat "bits").getD (w * n), rinv := e0.rinv,
+                     width := (optNat "width").getD 4, f := (optNat "2ad").getD 1,
+                     z := ((kv.lookup "srt").bind parseHexNat).getD 0 }
+  some { e0 with alg := alg, hasAlg := (kv.lookup "srt").isSome && (kv.lookup "width").isSome }
 
 /-- defining equations of the derived constants reported by the library -/
 def checkParam (e : Env) : List String :=
@@ -54,7 +65,17 @@ def checkParam (e : Env) : List String :=
   (if (e.ctx.u * e.p + 1) % B = 0 then [] else ["u*p != -1 mod B"]) ++
   (if e.conv = e.R * e.R % e.p then [] else ["conv != R^2 mod p"]) ++
   (if e.p % 2 = 1 ∧ e.p < e.R ∧ e.R ≤ e.p * B then [] else ["p not odd / not n digits"]) ++
-  (if e.qnr = 0 ∨ legendre e ((e.qnr % (e.p : Int)).toNat) = -1 then [] else ["qnr is a residue"])
+  (if e.qnr = 0 ∨ legendre e ((e.qnr % (e.p : Int)).toNat) = -1 then [] else ["qnr is a residue"]) ++
+  -- hypotheses of the algorithm theorems (Ctx.WF / Ctx.WFsrt of Lemmas/FpAlgInv, FpAlgSrt), evaluated on the reported context
+  (if !e.hasAlg then [] else
+    let a := e.alg
+    let q := (e.p - 1) / 2 ^ a.f
+    (if e.R * a.rinv % e.p = 1 then [] else ["R*rinv != 1 mod p"]) ++
+    (if e.p < 2 ^ a.fb then [] else ["p does not fit RLC_FP_BITS"]) ++
+    (if 0 < a.width then [] else ["RLC_WIDTH = 0"]) ++
+    (if 0 < a.f ∧ q % 2 = 1 ∧ e.p - 1 = 2 ^ a.f * q then [] else ["2ad is not the 2-adic valuation of p-1"]) ++
+    -- the root of unity is used (and required) only on the Tonelli–Shanks path, p ≡ 1 (mod 4)
+    (if a.z < e.p ∧ (e.p % 4 ≠ 1 ∨ powMod a.z (2 ^ (a.f - 1)) e.p = e.p - 1) then [] else ["srt is not a primitive 2^f-th root of unity"]))
 
 def handle (e : Env) (op : String) (args : List String) (got : String) : Option Verdict :=
   let c := e.ctx
@@ -82,43 +103,109 @@ def handle (e : Env) (op : String) (args : List String) (got : String) : Option 
     else if o.startsWith "hlv" then some { model := fmtEl e (fpHlvm c am), spec := [fmtVal e (a * ((p + 1) / 2))] }
     else if o.startsWith "sqr" then some { model := fmtEl e (fpSqrm c am), spec := [fmtVal e (a * a)] }
     else if o.startsWith "inv" then
-      -- class C: no digit-level model of the seven inversion algorithms; the result is pinned by a·c = 1
-      if a = 0 then cls "err" else cls (fmtVal e (inv e a))
-    else if o.startsWith "smb" then cls ("r=" ++ toString (legendre e a))
-    else if o == "is_sqr" then cls ("r=" ++ (if legendre e a = -1 then "0" else "1"))
+      let specS := if a = 0 then "err" else fmtVal e (inv e a)
+      let A := e.alg
+      let optS := fun (r : Option Nat) => match r with
+        | some x => fmtVal e x
+        | none => "err"
+      -- class A (Model/FpAlg, Lemmas/FpAlgInv*): the model's prediction is the model column, a·c = 1 the specification
+      if o == "inv" || o == "inv_monty" then
+        let tg := match FpAlg.kalLoop (2 * A.m + 1) (a * A.R % p) p 1 0 0 with
+          | some (x1, k) => ["kal:" ++ (if k ≤ A.m then "k<=m" else "k>m"),
+                             "kal:" ++ (if x1 ≥ A.R then "x1>=R" else if x1 > p then "x1>p" else "x1<p")]
+          | none => ["kal:none"]
+        some { model := optS (FpAlg.invMonty A a), spec := [specS], tags := if a = 0 then ["inv:zero"] else tg }
+      else if o == "inv_basic" then some { model := optS (FpAlg.invBasic A a), spec := [specS], tags := ["inv:basic"] }
+      else if o == "inv_lower" then some { model := optS (FpAlg.invLower A a), spec := [specS], tags := ["inv:lower"] }
+      else if o == "inv_binar" then
+        let tg := match FpAlg.binLoop p (a + p + 1) a p 1 0 with
+          | some (true, g) => ["binar:exit-u", if g < 0 then "binar:g<0" else if g ≥ (p : Int) then "binar:g>=p" else "binar:g-in-range"]
+          | some (false, g) => ["binar:exit-v", if g < 0 then "binar:g<0" else if g ≥ (p : Int) then "binar:g>=p" else "binar:g-in-range"]
+          | none => ["binar:none"]
+        some { model := optS (FpAlg.invBinar A a), spec := [specS], tags := if a = 0 then ["inv:zero"] else tg }
+      else if o == "inv_exgcd" then
+        let tg := match FpAlg.exgcdLoop (a + 1) a p 1 0 with
+          | some g => [if g < 0 then "exgcd:g<0" else "exgcd:g>=0"]
+          | none => ["exgcd:none"]
+        some { model := optS (FpAlg.invExgcd A a), spec := [specS], tags := if a = 0 then ["inv:zero"] else tg }
+      else
+        -- class C: fp_inv_divst / fp_inv_jmpds (Bernstein–Yang divsteps) are not modelled; pinned by a·c = 1
+        cls specS
+    else if o == "smb_basic" || o == "smb_lower" then
+      let m := match FpAlg.smbBasic e.alg a with
+        | some r => "r=" ++ toString r
+        | none => "err"
+      some { model := m, spec := ["r=" ++ toString (legendre e a)], tags := ["smb:euler"] }
+    else if o.startsWith "smb" then cls ("r=" ++ toString (legendre e a))   -- class C: Pornin / divstep symbol algorithms
+    else if o == "is_sqr" then
+      let m := match FpAlg.isSqr e.alg a with
+        | some b => "r=" ++ (if b then "1" else "0")
+        | none => "err"
+      some { model := m, spec := ["r=" ++ (if legendre e a = -1 then "0" else "1")] }
     else if o == "srt" then
-      -- a root is returned exactly when one exists; which of the two roots is the library's choice
-      if legendre e a = -1 then cls "r=0"
+      -- a root is returned exactly when one exists (specification); the model predicts which of the two roots
+      let m := match FpAlg.srt e.alg a with
+        | some (true, x) => "r=1 " ++ fmtVal e x
+        | some (false, _) => "r=0"
+        | none => "err"
+      let tg := [if a = 0 then "srt:zero" else if p % 4 = 3 then "srt:3mod4" else "srt:tonelli-f" ++ toString e.alg.f,
+                 if legendre e a = -1 then "srt:non-residue" else "srt:residue"]
+      if legendre e a = -1 then some { model := m, spec := ["r=0"], tags := tg }
       else
         let okRoot : Bool := match (got.splitOn " ") with
           | ["r=1", v, _] => match parseHexNat v with
             | some r => decide (r < p) && decide (r * r % p = a) && got == "r=1 " ++ fmtVal e r
             | none => false
           | _ => false
-        some { model := got, spec := if okRoot then [got] else ["r=1 <a canonical square root of the operand>"] }
+        some { model := m, spec := if okRoot then [got] else ["r=1 <a canonical square root of the operand>"], tags := tg }
     else if o == "crt" then
       -- a cube root is returned exactly when one exists (always when 3 ∤ p − 1; else iff a^((p−1)/3) = 1, or a = 0)
       let isCube : Bool := a == 0 || (p - 1) % 3 != 0 || powMod a ((p - 1) / 3) p == 1
-      if !isCube then cls "r=0"
+      if !isCube then
+        let m := match FpAlg.crtEasy e.alg a with
+          | some (some (true, x)) => "r=1 " ++ fmtVal e x
+          | some (some (false, _)) => "r=0"
+          | some none => "err"
+          | none => got
+        some { model := m, spec := ["r=0"], tags := ["crt:non-cube"] }
       else
         let okRoot : Bool := match (got.splitOn " ") with
           | ["r=1", v, _] => match parseHexNat v with
             | some r => decide (r < p) && decide (r * r % p * r % p = a) && got == "r=1 " ++ fmtVal e r
             | none => false
           | _ => false
-        some { model := got, spec := if okRoot then [got] else ["r=1 <a canonical cube root of the operand>"] }
+        -- class A on the one-exponentiation branches (Model/FpAlgCrt); the general branch (p ≡ 1 mod 9) stays class C
+        let (m, tg) := match FpAlg.crtEasy e.alg a with
+          | some (some (true, x)) => ("r=1 " ++ fmtVal e x, "crt:exp-branch-" ++ toString (p % 9))
+          | some (some (false, _)) => ("r=0", "crt:exp-branch-" ++ toString (p % 9))
+          | some none => ("err", "crt:err")
+          | none => (got, "crt:general-unmodelled")
+        some { model := m, spec := if okRoot then [got] else ["r=1 <a canonical cube root of the operand>"], tags := [tg] }
     else none
-  | "fpe", [_, _, a, x] => do
+  | "fpe", [o, _, a, x] => do
     let a ← parseHexNat a
     let x ← parseHexInt x
     let a := a % p
-    -- exponent reduced mod p-1 for a ≠ 0; negative exponents through the inverse
+    -- specification: a^x; negative exponents through the inverse (error for a = 0)
     let v := if x ≥ 0 then some (powMod a x.toNat p)
              else if a = 0 then none else some (powMod (inv e a) x.natAbs p)
     let s := match v with
       | some v => fmtVal e v
       | none => "err"
-    some { model := s, spec := [s] }
+    -- class A: the loop of each variant (Model/FpAlg); fp_exp is FP_EXP = SLIDE
+    let A := e.alg
+    let r := if o == "exp_basic" then FpAlg.fpExpBasic A a x
+             else if o == "exp_monty" then FpAlg.fpExpMonty A a x
+             else FpAlg.fpExpSlide A a x
+    let m := match r with
+      | some v => fmtVal e v
+      | none => "err"
+    let bl := Relic.Model.Rec.bitLen x.natAbs
+    let tg := [if x = 0 then "exp:zero" else if x < 0 then "exp:neg" else "exp:pos",
+               if bl < A.width then "exp:shorter-than-window" else if bl > A.fb + 1 then "exp:longer-than-field+1"
+               else if bl > A.fb then "exp:field+1-bits" else "exp:ordinary",
+               "exp:" ++ o]
+    some { model := m, spec := [s], tags := tg }
   | "fpd", [o, _, a, d] => do
     let a ← parseHexNat a
     let d ← parseHexNat d
@@ -126,7 +213,17 @@ def handle (e : Env) (op : String) (args : List String) (got : String) : Option 
     let s := if o == "add_dig" then fmtVal e (a + d) else if o == "sub_dig" then fmtVal e (a + p - d % p)
       else if o == "mul_dig" then fmtVal e (a * d) else if o == "set_dig" then fmtVal e d
       else if o == "exp_dig" then fmtVal e (powMod a d p) else "?"
-    some { model := s, spec := [s] }
+    if o == "exp_dig" then some { model := fmtVal e (FpAlg.expDig p a d), spec := [s], tags := ["exp:dig"] }
+    else some { model := s, spec := [s] }
+  | "fpsim", _ :: as => do
+    -- fp_inv_sim (class A: Model/FpAlg.invSim); specification: every inverse, or the error of fp_inv when an element is zero
+    let vs ← as.mapM parseHexNat
+    let vs := vs.map (· % p)
+    let sp := if vs.any (· == 0) then "err" else String.intercalate " " (vs.map fun a => fmtVal e (inv e a))
+    let m := match FpAlg.invSim e.alg vs with
+      | some out => String.intercalate " " (out.map (fmtVal e))
+      | none => "err"
+    some { model := m, spec := [sp], tags := ["sim:n=" ++ toString vs.length, if vs.any (· == 0) then "sim:zero" else "sim:ok"] }
   | "fpraw", [o, _, a, b] => do
     let a ← parseHexNat a
     let b ← parseHexNat b
